@@ -118,6 +118,7 @@ let parse_event (f : string list) : wev =
   | ["strat"; "set"; n; s] -> WGlobal (EStratSet (name_of_string n, n_of_dec s))
   | ["strat"; "unset"; n] -> WGlobal (EStratUnset (name_of_string n))
   | ["cs"; a; s] -> WGlobal (ECsFlags (a = "1", s = "1"))
+  | ["cscap"; c] -> WGlobal (ECsCap (n_of_dec c))
   | ["sleep"; d] -> WGlobal (ESleep (n_of_dec d))
   | ["tick"; k; now] -> WLocal (n_of_dec k, ETick (n_of_dec now))
   | ["sweep"; k; now] -> WLocal (n_of_dec k, ESweep (n_of_dec now))
@@ -377,38 +378,56 @@ let () =
         end;
         let sent_hist_snapshot = Hashtbl.copy sent_hist in
         if want "C02" then begin
-          (* suppression judged from the history of observed sends: per thread, PIT entry key and upstream token, the last
-             (nonce, time) an Interest was sent on each face; cleared when a Data that satisfies the entry arrives *)
+          (* suppression and loop detection judged from the history. Per thread and PIT-entry key the runner keeps, for every face an
+             Interest was sent on, the last (nonce, time, upstream token); a send counts for the current arrival if it carries the
+             token the forwarder uses now, or if by the history the entry it was made for must still exist (a record of that
+             token is still inside its own lifetime in the pending table). Cleared by a Data that satisfies the entry and by expiry. *)
           (match we with
            | WPacket (EInterest (now, i)) ->
                let k = thr_of_name i.i_name in
-               let s = pre (if k < nt then k else 0) in
+               let k = if k < nt then k else 0 in
+               let s = pre k in
                let hk = match select_hint s.regions i.i_hints with Some h -> h | None -> [] in
+               let key = (k, i.i_name, i.i_cbp, i.i_mbf, hk) in
+               let live_tok u = List.exists (fun p -> p.p_name = i.i_name && p.p_cbp = i.i_cbp && p.p_mbf = i.i_mbf && p.p_hint = hk
+                                                       && N.eqb p.p_utok u && N.ltb now p.p_exp) sp_before.(k) in
                let sent_i = List.filter (fun o -> o.o_kind = KInterest && List.length o.o_tok = 6) outs_all in
-               (match sent_i, i.i_nonce with
-                | o0 :: _, Some x ->
-                    let utok = be_val (List.filteri (fun j _ -> j >= 2) o0.o_tok) in
-                    let key = (k, i.i_name, i.i_cbp, i.i_mbf, hk, utok) in
-                    let hist = try Hashtbl.find sent_hist key with Not_found -> [] in
-                    let supp = suppression (strat_of_name s i.i_name) in
-                    if i.i_nhf = None then
-                      List.iter (fun (f, x', at) ->
-                        if not (N.eqb x' x) && N.ltb now (N.add at supp) then
-                          Printf.printf "ORACLE C02 %s %d not-suppressed-history:%s | Interest %s from face %s nonce %s was forwarded [%s] although an Interest of this PIT entry with another nonce (%s) had been sent on face %s only %s ns earlier (suppression interval %s ns)\n"
-                            caseid !evno (if N.eqb (strat_of_name s i.i_name) (n_of_int 1) then "multicast" else "best-route")
-                            (string_of_name i.i_name) (dec_of_n i.i_face) (dec_of_n x) outs_impl_str (dec_of_n x') (dec_of_n f)
-                            (dec_of_n (N.sub now at)) (dec_of_n supp)) hist;
-                    let hist' = List.fold_left (fun h o -> (o.o_face, x, now) :: List.filter (fun (f, _, _) -> not (N.eqb f o.o_face)) h) hist sent_i in
-                    Hashtbl.replace sent_hist key hist'
-                | _ -> ())
+               (match i.i_nonce with
+                | Some x ->
+                    (* loop: the nonce of an Interest still pending (by the history) from another face *)
+                    List.iter (fun p ->
+                        if p.p_name = i.i_name && p.p_cbp = i.i_cbp && p.p_mbf = i.i_mbf && p.p_hint = hk && not (N.eqb p.p_face i.i_face)
+                           && N.ltb now p.p_exp && outs_impl <> [] then
+                          (match Hashtbl.find_opt last_nonce (k, i.i_name, i.i_cbp, i.i_mbf, hk, p.p_face) with
+                           | Some y when N.eqb y x ->
+                               Printf.printf "ORACLE C02 %s %d duplicate-nonce-forwarded | Interest %s from face %s repeats nonce %s of the Interest still pending from face %s (inside its lifetime), but packets were sent: [%s]\n"
+                                 caseid !evno (string_of_name i.i_name) (dec_of_n i.i_face) (dec_of_n x) (dec_of_n p.p_face) outs_impl_str
+                           | _ -> ())) sp_before.(k);
+                    (match sent_i with
+                     | o0 :: _ ->
+                         let utok = be_val (List.filteri (fun j _ -> j >= 2) o0.o_tok) in
+                         let hist = try Hashtbl.find sent_hist key with Not_found -> [] in
+                         let supp = suppression (strat_of_name s i.i_name) in
+                         if i.i_nhf = None then
+                           List.iter (fun (f, x', at, u) ->
+                             if (N.eqb u utok || live_tok u) && not (N.eqb x' x) && N.ltb now (N.add at supp) then
+                               Printf.printf "ORACLE C02 %s %d not-suppressed-history:%s | Interest %s from face %s nonce %s was forwarded [%s] although an Interest of this PIT entry with another nonce (%s) had been sent on face %s only %s ns earlier (suppression interval %s ns)\n"
+                                 caseid !evno (if N.eqb (strat_of_name s i.i_name) (n_of_int 1) then "multicast" else "best-route")
+                                 (string_of_name i.i_name) (dec_of_n i.i_face) (dec_of_n x) outs_impl_str (dec_of_n x') (dec_of_n f)
+                                 (dec_of_n (N.sub now at)) (dec_of_n supp)) hist;
+                         let hist' = List.fold_left (fun h o -> (o.o_face, x, now, utok) :: List.filter (fun (f, _, _, _) -> not (N.eqb f o.o_face)) h) hist sent_i in
+                         Hashtbl.replace sent_hist key hist'
+                     | [] -> ())
+                | None -> ())
            | WPacket (EData (_, d)) ->
                if data_effective pre0.faces d then begin
-                 let dead = Hashtbl.fold (fun ((k, nm, cbp, _, _, utok) as key) _ acc ->
-                     let sat = match data_token d.d_tok with
-                       | Some (th, tk) -> int_of_n th = k && N.eqb tk utok
-                       | None -> is_prefix nm d.d_name && (cbp || List.length nm = List.length d.d_name) in
-                     if sat then key :: acc else acc) sent_hist [] in
-                 List.iter (Hashtbl.remove sent_hist) dead
+                 let upd = Hashtbl.fold (fun ((k, nm, cbp, _, _) as key) hist acc ->
+                     let keep = List.filter (fun (_, _, _, utok) ->
+                         not (match data_token d.d_tok with
+                              | Some (th, tk) -> int_of_n th = k && N.eqb tk utok
+                              | None -> is_prefix nm d.d_name && (cbp || List.length nm = List.length d.d_name))) hist in
+                     if List.length keep <> List.length hist then (key, keep) :: acc else acc) sent_hist [] in
+                 List.iter (fun (key, keep) -> if keep = [] then Hashtbl.remove sent_hist key else Hashtbl.replace sent_hist key keep) upd
                end
            | _ -> ())
         end;
@@ -455,24 +474,26 @@ let () =
            | WPacket (EData (now, d)) ->
                (* out-record nonces of the satisfied entries are recorded under the Data name: which of them, the history does not settle *)
                if data_effective pre0.faces d then
-                 Hashtbl.iter (fun (k, nm, cbp, _, _, utok) hist ->
-                     let sat = match data_token d.d_tok with
-                       | Some (th, tk) -> int_of_n th = k && N.eqb tk utok
-                       | None -> is_prefix nm d.d_name && (cbp || List.length nm = List.length d.d_name) in
-                     if sat then List.iter (fun (_, x, _) ->
+                 Hashtbl.iter (fun (k, nm, cbp, _, _) hist ->
+                     List.iter (fun (_, x, _, utok) ->
+                         let sat = match data_token d.d_tok with
+                           | Some (th, tk) -> int_of_n th = k && N.eqb tk utok
+                           | None -> is_prefix nm d.d_name && (cbp || List.length nm = List.length d.d_name) in
                          let key = (k, d.d_name, x) in
-                         if not (Hashtbl.mem must_dead key) then Hashtbl.replace may_dead key (N.add now lifeN)) hist) sent_hist_snapshot
+                         if sat && not (Hashtbl.mem must_dead key) then Hashtbl.replace may_dead key (N.add now lifeN)) hist) sent_hist_snapshot
            | WLocal (k, ETick now) ->
                (* expiry is an event of the history (the PIT entries this update reaped): the nonces an expired entry was last
                   forwarded with — sent since the last Data that satisfied it — are dead from now until now + lifetime *)
                let k = int_of_n k in
-               let gone = Hashtbl.fold (fun ((k', nm, _, _, _, utok) as key) hist acc ->
-                   if k' = k && List.exists (N.eqb utok) ch.ch_expired then begin
-                     List.iter (fun (_, x, _) ->
-                       let dk = (k, nm, x) in
-                       if not (Hashtbl.mem must_dead dk) && not (Hashtbl.mem may_dead dk) then Hashtbl.replace must_dead dk (N.add now lifeN)) hist;
-                     key :: acc end else acc) sent_hist [] in
-               List.iter (Hashtbl.remove sent_hist) gone
+               let upd = Hashtbl.fold (fun ((k', nm, _, _, _) as key) hist acc ->
+                   if k' = k then begin
+                     let expired_here (_, _, _, utok) = List.exists (N.eqb utok) ch.ch_expired in
+                     List.iter (fun ((_, x, _, _) as h) ->
+                       if expired_here h then begin
+                         let dk = (k, nm, x) in
+                         if not (Hashtbl.mem must_dead dk) && not (Hashtbl.mem may_dead dk) then Hashtbl.replace must_dead dk (N.add now lifeN) end) hist;
+                     (key, List.filter (fun h -> not (expired_here h)) hist) :: acc end else acc) sent_hist [] in
+               List.iter (fun (key, keep) -> if keep = [] then Hashtbl.remove sent_hist key else Hashtbl.replace sent_hist key keep) upd
            | WLocal (k, ESweep now) ->
                let k = int_of_n k in
                let drop tbl = let dead = Hashtbl.fold (fun ((k', _, _) as key) exp acc -> if k' = k && N.ltb exp now then key :: acc else acc) tbl [] in
